@@ -6,6 +6,7 @@
 From Coq Require Import ZArith List Bool.
 From BV Require Import Model.HostileAt Model.HostileFields Model.HostileSdp Model.HostileHost Model.HostileRfcomm Model.HostileLoops.
 From BV Require Import Proofs.HostileAt Proofs.HostileFields Proofs.HostileSdp Proofs.HostileHost Proofs.HostileRfcomm Proofs.HostileLoops.
+From BV Require Import Proofs.HostileTransport.
 From BV Require Import Gen.C17Tables.
 Import ListNotations.
 Open Scope Z_scope.
@@ -277,6 +278,35 @@ Theorem C17_tlv_loops_match_source :
 Proof. vm_compute. split; reflexivity. Qed.
 Print Assumptions C17_tlv_loops_match_source.
 
+(* ------------------------------------------------------------------ transport boundary *)
+(* Every transport source feeds each received chunk to one PacketParser and goes on after an
+   InvalidPacketError (the parser is C02's model, Model/Framer.v).  A byte that is not an HCI
+   packet type, at whatever point of whatever stream, leaves the parser in its initial state *)
+Theorem C17_transport_reject_is_init : forall (t : tp_table) d (s s' : tp_parser) o,
+  tp_feed t s d = (s', o, tp_raised) -> s' = tp_init.
+Proof. exact reject_is_init. Qed.
+Print Assumptions C17_transport_reject_is_init.
+
+(* ... hence, with the packet table of the current source, every well-formed packet the
+   controller sends after the rejected byte, cut into chunks in any way, is delivered. *)
+Theorem C17_transport_table_wf : tp_wf_table tp_packet_info = true.
+Proof. vm_compute. reflexivity. Qed.
+Print Assumptions C17_transport_table_wf.
+
+Theorem C17_transport_delivers_after_reject : forall (s : tp_parser) d s' o pkts chunks,
+  tp_feed tp_packet_info s d = (s', o, tp_raised) ->
+  forallb (tp_wf_packet tp_packet_info) pkts = true -> concat chunks = concat pkts ->
+  fst (tp_receive_all tp_packet_info s' chunks) = tp_init /\
+  concat (snd (tp_receive_all tp_packet_info s' chunks)) = map tp_packet pkts.
+Proof. intros s d s' o pkts chunks. exact (delivered_after_reject tp_packet_info s d s' o pkts chunks C17_transport_table_wf). Qed.
+Print Assumptions C17_transport_delivers_after_reject.
+
+(* pinned to the source: feed_data calls self.reset() before raising, and the two sources
+   with a handler of their own (StreamPacketSource, PumpedPacketSource) continue after it *)
+Theorem C17_transport_reject_matches_source : transport_reject_shape = [1; 1; 2; 1; 1].
+Proof. vm_compute. reflexivity. Qed.
+Print Assumptions C17_transport_reject_matches_source.
+
 (* ------------------------------------------------------------------ Host.on_packet *)
 Theorem C17_host_undecodable_contained : forall st p,
   hci_from_bytes p = HErr -> host_on_packet st p = (st, [OParseError]).
@@ -339,6 +369,11 @@ Proof. vm_compute. repeat split. Qed.
 Example C17_unknown_signalling_code_rejected :
   on_signalling_pdu unit (fun _ _ _ s => (s, [], false)) sig_classes sig_handled tt [200; 7; 0; 0]
   = (tt, [[1; 7; 2; 0; 0; 0]], SigRejected).
+Proof. vm_compute. reflexivity. Qed.
+
+Example C17_transport_junk_then_event :
+  tp_receive_all tp_packet_info tp_init [[119]; [4; 16; 1; 0]] =
+    (tp_init, [[Framer.Error 119]; [tp_packet [4; 16; 1; 0]]]).
 Proof. vm_compute. reflexivity. Qed.
 
 Example C17_tlv_examples :
